@@ -47,12 +47,12 @@ class World(object):
             k = K.new_key('ed25519', name='Own %s' % name, email='own@x.org', subs=[(alg, {KeyFlags.EncryptCommunications, KeyFlags.EncryptStorage})])
             self.own[name] = k
         self.signer = K.new_key('ed25519', name='Msg Signer', email='ms@x.org')
-        self.large = os.urandom(1 << 16) * (2 if ctx.quick else 64)
-        self.incompressible = os.urandom(5000 if ctx.quick else 1 << 20)
+        self.large = os.urandom(1 << 16) * (2 if ctx.quick else 16)
+        self.incompressible = os.urandom(5000 if ctx.quick else 1 << 18)
 
     def body(self, cls):
         if cls == 'large':
-            return b'large text body line\n' * (3000 if self.ctx.quick else 200000)
+            return b'large text body line\n' * (3000 if self.ctx.quick else 50000)
         if cls == 'incompressible':
             return self.incompressible
         return BODIES[cls]
@@ -235,6 +235,10 @@ def run(ctx):
         sc = e.get('scenario', {})
         key = '%s recipient=%s cipher=%s' % (e['k'], e.get('recipient', e.get('label', '')), sc.get('cipher', '')) if e['k'] != 'foreign' else 'foreign %s' % e['label']
         ctx.violation(clause, key, {'scenario': sc, 'event': {k: v for k, v in e.items() if k not in ('blob', 'inner', 'log', 'recipients')}})
+    # whole-session walks of spec/Session.tla (protection scopes x signatures x encryption x keyring), this property's clause family
+    from .. import session as _session
+    for _b, _step, _clause, _detail in _session.generate(ctx, 'C03.session')[0]:
+        ctx.violation(_clause, 'session: %s at %s' % (_detail, _b[_step - 1][0]), {'behaviour': [list(x) for x in _b[:_step]]})
     return ctx.finish(level='model_checking',
                       rule='scenarios from Gen_Enc (9 ciphers x 9 recipient multisets full product; every body / compression / signed / supplied-key / armor '
                            'value against a base; extra pairs), each run PGPy->PGPy per recipient, PGPy->independent decryptor per recipient, and the '
